@@ -47,6 +47,13 @@ mod verif_canary {
 """
 
 
+def _limit_memory():
+    """address-space cap per process (inherited by every cbmc): a runaway SAT problem ends as `out of memory` = undecided, not as an OOM-killed sandbox"""
+    import resource
+    gb = int(os.environ.get("VERIF_KANI_MEM_GB", "24"))
+    resource.setrlimit(resource.RLIMIT_AS, (gb << 30, gb << 30))
+
+
 def run_kani(crate_dir, harness_filter=None, jobs=8, timeout=1800, extra=(), harness_timeout=None):
     """run all harnesses (terse, parallel). returns (per_harness dict, raw output, wall)"""
     cmd = ["cargo", "kani", "--output-format=terse", "-j", str(jobs), *extra]
@@ -59,7 +66,7 @@ def run_kani(crate_dir, harness_filter=None, jobs=8, timeout=1800, extra=(), har
     env.pop("RUSTUP_TOOLCHAIN", None)
     t0 = time.time()
     try:
-        p = subprocess.run(cmd, cwd=crate_dir, capture_output=True, text=True, timeout=timeout, env=env)
+        p = subprocess.run(cmd, cwd=crate_dir, capture_output=True, text=True, timeout=timeout, env=env, preexec_fn=_limit_memory)
         out = p.stdout + "\n" + p.stderr
         timed_out = False
     except subprocess.TimeoutExpired as e:
@@ -114,8 +121,11 @@ def parse_kani(out):
         timeout = "CBMC timed out" in b
         unwind = any("unwinding assertion" in f[0] for f in failed)
         unsupported = any("not currently supported" in f[0] or "unsupported" in f[0].lower() for f in failed)
-        if timeout or oom:
+        crashed = bool(re.search(r"CBMC failed with status|CBMC crashed|signal|Killed", b)) and not failed
+        if timeout or oom or crashed:
             st = None
+        if st == "FAILED" and not failed:
+            st = None            # a FAILED verdict without a single failed check is a tool failure (solver killed, crashed), never a result
         res[short] = {"status": st, "failed": failed, "time": float(tm.group(1)) if tm else 0.0, "oom": oom, "timeout": timeout,
                       "unwind": unwind, "unsupported": unsupported, "raw": b[-3000:]}
     return res
